@@ -572,10 +572,12 @@ pub fn gen_inputs(rng: &mut Rng, a: &Analysis, aliases: bool) -> (Vec<String>, b
                     2 => format!("./{}", s.out),
                     3 => format!("@ROOT@/{}", s.path),
                     4 => {
+                        // through a directory and back
                         if s.dir.is_empty() {
                             format!("sub/../{}", s.out)
                         } else {
-                            format!("{}/../{}", s.dir, s.out)
+                            let last = s.dir.rsplit('/').next().unwrap_or("");
+                            format!("{}/../{last}/{}", s.dir, names::file_name(&s.out))
                         }
                     }
                     5 => {
